@@ -39,6 +39,7 @@ func init() {
 			{ID: "C14.18", Desc: "the last fragment of an encoded key never carries the directory marker (keys whose encoding is a whole number of fragments)", Run: func(c *Ctx) { ruleMarkerStrictlyInside(c, "C14.18") }, MinSites: 1},
 			{ID: "C14.19", Desc: "not-exist errors are recognised through errors.Is with the error first (wrapped and joined errors of the backends)", Run: func(c *Ctx) { ruleErrorsIsOrder(c, "C14.19") }, MinSites: 1},
 			{ID: "C14.20", Desc: "no key's file name can be a temporary file's name", Run: func(c *Ctx) { ruleTempPrefixOutsideAlphabet(c, "C14.20") }, MinSites: 1},
+			{ID: "C14.21", Desc: "keys of any length can be listed: the listing goes through the root handle like Set, Get and Delete", Run: func(c *Ctx) { ruleListingThroughRoot(c, "C14.21") }, MinSites: 1},
 		},
 	})
 }
